@@ -53,7 +53,7 @@ func runC10(c *Ctx) {
 	for _, r := range rows {
 		if !r.used {
 			c.SetConfig("tables")
-			c.Fail("stale-table", "concurrency:"+r.typ+":"+r.loc, "", "reviewed line no longer matches anything (remove it): "+r.typ+" "+r.loc)
+			c.Stale("concurrency:"+r.typ+":"+r.loc)
 		}
 	}
 }
